@@ -204,6 +204,22 @@ def check_one(c):
         require(trace == [], "preset-stop:events", f"a run started with a stop already requested emitted {len(trace)} events")
         require(phash(state) == h0, "preset-stop:params", "a run started with a stop already requested changed parameters")
         require(state.stop_training is True, "stop-flag", "the stop request did not persist")
+        # lifecycle: the request is withdrawn and the same state trained again: an ordinary complete run
+        state.stop_training = False
+        seen = []
+        from qucumber.callbacks import LambdaCallback
+        kw2 = dict(epochs=max(se, 1) + 1, starting_epoch=max(se, 1), pos_batch_size=B, lr=0.1, k=1,
+                   callbacks=[LambdaCallback(on_epoch_end=lambda s_, e_: seen.append(("EE", e_)), on_batch_end=lambda s_, e_, b_: seen.append(("BE", e_, b_)),
+                                             on_train_end=lambda s_: seen.append(("TE",)))])
+        if c["type"] != "positive":
+            kw2["input_bases"] = np.array([["Z", "Z"] if (k % 2 == 0 or c.get("all_z")) else ["X", "Y"] for k in range(N)]).reshape(N, 2)
+        data2 = torch.tensor([R.index_to_row(k % 4, 2) if k % 2 == 0 else [0, 0] for k in range(N)], dtype=torch.double)
+        state.fit(data2, **kw2)
+        want2 = []
+        for e_ in (max(se, 1), max(se, 1) + 1):
+            want2 += [("BE", e_, b_) for b_ in range(nb)] + [("EE", e_)]
+        want2.append(("TE",))
+        require(seen == want2, "after-withdrawn-stop:protocol", f"a run started after the pending stop request was withdrawn is not a complete run: {seen[:8]} ...")
         return {"nontrivial": True, "labels": ["preset"]}
     # list-order dispatch: every event reaches callbacks 0..ncb-1 consecutively
     require(len(trace) % ncb == 0, "dispatch", f"{len(trace)} callback invocations for {ncb} callbacks: some callback missed an event",
